@@ -152,11 +152,12 @@ Section JwtProofs.
     rewrite E in P. cbn [eo_claims] in P. rewrite P' in P. injection P as ->.
     destruct (convert_keys_ok _ _ _ K) as [KK CP]. destruct (claims_pv_spec _ _ P') as [DK DP].
     split; [congruence|]. intro k. rewrite DP. specialize (CP k). unfold conv_point in CP.
-    destruct (dget c k) as [[v|t]|] eqn:G.
+    destruct (dget c k) as [[v|t|ob]|] eqn:G.
     - rewrite CP. reflexivity.
     - unfold spec_claim. rewrite <- nd_keys_is. destruct (str_mem k nd_keys).
       + destruct CP as (n & N & ->). rewrite N. reflexivity.
       + rewrite CP. reflexivity.
+    - rewrite CP. reflexivity.
     - rewrite CP. reflexivity.
   Qed.
 End JwtProofs.
@@ -181,6 +182,186 @@ Lemma header_claims_instances :
   convert_keys nd_keys [(asc "exp", CDt (mkdt 2024 3 1 6 15 0 5 (Some 20700))); (asc "x", CDt (mkdt 2024 3 1 0 0 0 0 None))]
     = ([(asc "exp", CV (PInt 1709253000)); (asc "x", CDt (mkdt 2024 3 1 0 0 0 0 None))], None).
 Proof. vm_compute. repeat split; reflexivity. Qed.
+
+Section JwtGProofs.
+  Variable json_dumps : claims -> res bytes.
+  Variable json_loads : bytes -> res pv.
+  Variable transport_encode : hdr -> bytes -> res bytes * hdr.
+  Variable transport_decode : bytes -> res (hdr * bytes).
+
+  Notation enc := (encode_g json_dumps transport_encode).
+  Notation dec := (decode json_loads transport_decode).
+
+  Lemma encode_g_header_unchanged h c : eo_header (enc h c) = h.
+  Proof.
+    unfold encode_g. destruct (convert_claims_g json_dumps c) as [c' [p|e]]; [|reflexivity].
+    destruct (transport_encode (typ_default h) p). reflexivity.
+  Qed.
+
+  Lemma encode_g_claims_after h c : eo_claims (enc h c) = fst (convert_keys nd_keys c).
+  Proof.
+    unfold encode_g, convert_claims_g.
+    destruct (convert_keys nd_keys c) as [c' [e|]]; [reflexivity|]. cbn [fst].
+    destruct (json_dumps c') as [p|e]; [|reflexivity].
+    destruct (transport_encode (typ_default h) p). reflexivity.
+  Qed.
+
+  Lemma encode_g_ok_inv h c tok : eo_result (enc h c) = Ok tok ->
+    exists c' p w',
+      convert_keys nd_keys c = (c', None) /\
+      json_dumps c' = Ok p /\ transport_encode (typ_default h) p = (Ok tok, w') /\
+      enc h c = mkeo (Ok tok) h w' c'.
+  Proof.
+    unfold encode_g, convert_claims_g.
+    destruct (convert_keys nd_keys c) as [c' [e|]] eqn:K; [discriminate|].
+    destruct (json_dumps c') as [p|e] eqn:J; [|discriminate].
+    destruct (transport_encode (typ_default h) p) as [r w'] eqn:T. cbn [eo_result].
+    intros ->. exists c', p, w'. repeat split; try reflexivity; assumption.
+  Qed.
+
+  (* the transport is not reached when the claims cannot be serialized *)
+  Lemma encode_g_err_before_transport h c e :
+    snd (convert_claims_g json_dumps c) = Err e ->
+    enc h c = mkeo (Err e) h (typ_default h) (fst (convert_keys nd_keys c)).
+  Proof.
+    unfold encode_g, convert_claims_g.
+    destruct (convert_keys nd_keys c) as [c' [e'|]]; cbn [fst snd].
+    - intro H. injection H as ->. reflexivity.
+    - destruct (json_dumps c') as [p|e']; [discriminate|].
+      intro H. injection H as ->. reflexivity.
+  Qed.
+
+  (* ---- contracts of the external parts ---- *)
+  Hypothesis json_rt : forall c d b,
+    claims_pv c = Some d -> json_ok (PDict d) = true -> json_dumps c = Ok b -> json_loads b = Ok (PDict d).
+  Hypothesis transport_rt : forall w p tok w',
+    transport_encode w p = (Ok tok, w') ->
+    transport_decode tok = Ok (w', p) /\
+    exists extra, w' = w ++ extra /\ forall k, dmem w k = true -> dmem extra k = false.
+
+  Lemma encode_g_token_header h c tok :
+    keys_unique (dkeys h) = true -> eo_result (enc h c) = Ok tok ->
+    exists p extra,
+      transport_decode tok = Ok (spec_header h ++ extra, p) /\
+      eo_work (enc h c) = spec_header h ++ extra /\
+      (forall k, dmem (spec_header h) k = true -> dmem extra k = false) /\
+      dget (spec_header h ++ extra) lit_typ =
+        Some (match dget h lit_typ with Some v => v | None => lit_JWT end) /\
+      (forall k v, dget h k = Some v -> dget (spec_header h ++ extra) k = Some v).
+  Proof.
+    intros U H. destruct (encode_g_ok_inv h c tok H) as (c' & p & w' & _ & _ & T & E).
+    destruct (transport_rt _ _ _ _ T) as [D (extra & W & X)].
+    rewrite (typ_default_spec h U) in *. subst w'.
+    exists p, extra. rewrite E. cbn [eo_work].
+    split; [exact D|]. split; [reflexivity|]. split; [exact X|]. split.
+    - rewrite dget_app, spec_header_typ. reflexivity.
+    - intros k v G. rewrite dget_app, (spec_header_members h k v G). reflexivity.
+  Qed.
+
+  Lemma encode_g_decode_rt h c tok d :
+    keys_unique (dkeys h) = true -> claims_ok c = true -> eo_result (enc h c) = Ok tok ->
+    claims_pv (eo_claims (enc h c)) = Some d ->
+    exists extra,
+      dec tok = Ok (spec_header h ++ extra, PDict d) /\
+      (forall k, dmem (spec_header h) k = true -> dmem extra k = false).
+  Proof.
+    intros U O H P. destruct (encode_g_ok_inv h c tok H) as (c' & p & w' & K & J & T & E).
+    destruct (transport_rt _ _ _ _ T) as [D (extra & W & X)].
+    rewrite (typ_default_spec h U) in *. subst w'.
+    rewrite E in P. cbn [eo_claims] in P.
+    exists extra. split; [|exact X].
+    apply decode_ok_iff. exists p. split; [exact D|]. split; [|reflexivity].
+    apply (json_rt c' d p P); [|exact J].
+    apply (claims_pv_ok c' d); [|exact P]. exact (convert_keys_claims_ok _ _ _ _ O K).
+  Qed.
+
+  (* member by member: what the decoded claims are *)
+  Lemma encode_g_claims_members h c tok d :
+    eo_result (enc h c) = Ok tok -> claims_pv (eo_claims (enc h c)) = Some d ->
+    dkeys d = dkeys c /\
+    forall k, dget d k = match dget c k with Some x => spec_claim lit_nd_keys k x | None => None end.
+  Proof.
+    intros H P. destruct (encode_g_ok_inv h c tok H) as (c' & p & w' & K & _ & _ & E).
+    rewrite E in P. cbn [eo_claims] in P.
+    destruct (convert_keys_ok _ _ _ K) as [KK CP]. destruct (claims_pv_spec _ _ P) as [DK DP].
+    split; [congruence|]. intro k. rewrite DP. specialize (CP k). unfold conv_point in CP.
+    destruct (dget c k) as [[v|t|ob]|] eqn:G.
+    - rewrite CP. reflexivity.
+    - unfold spec_claim. rewrite <- nd_keys_is. destruct (str_mem k nd_keys).
+      + destruct CP as (n & N & ->). rewrite N. reflexivity.
+      + rewrite CP. reflexivity.
+    - rewrite CP. reflexivity.
+    - rewrite CP. reflexivity.
+  Qed.
+End JwtGProofs.
+
+(* the default-encoder model is the instance lift_dumps of the general one *)
+Lemma encode_is_g jd te h c : encode jd te h c = encode_g (lift_dumps jd) te h c.
+Proof. reflexivity. Qed.
+
+(* ---------- jwt.encode / jwt.decode with their optional arguments ---------- *)
+Section ApiProofs.
+  Variable json_dumps : option N -> claims -> res bytes.
+  Variable json_loads : option N -> bytes -> res pv.
+  Variable jws_encode jwe_encode : hdr -> bytes -> targs -> res bytes * hdr.
+  Variable jws_decode jwe_decode : bytes -> targs -> res (hdr * bytes).
+  Notation jenc := (jwt_encode json_dumps jws_encode jwe_encode).
+  Notation jdec := (jwt_decode json_loads jws_decode jwe_decode).
+
+  Lemma api_header_unchanged h c a e : eo_header (jenc h c a e) = h.
+  Proof. apply encode_g_header_unchanged. Qed.
+
+  Lemma api_object_only tok a d h v : jdec tok a d = Ok (h, v) -> is_dict v = true.
+  Proof. apply decode_object_only. Qed.
+
+  (* the transport chosen by isinstance(registry, JWERegistry) gets key, algorithms and
+     registry unchanged; the other transport is not consulted *)
+  Lemma api_decode_iff tok a d h v :
+    jdec tok a d = Ok (h, v) <->
+    exists p, (if reg_is_jwe (ta_reg a) then jwe_decode tok a else jws_decode tok a) = Ok (h, p) /\
+              json_loads d p = Ok v /\ is_dict v = true.
+  Proof.
+    unfold jwt_decode. rewrite decode_ok_iff. unfold select_decode.
+    destruct (reg_is_jwe (ta_reg a)); reflexivity.
+  Qed.
+
+  Lemma api_transport_error tok a d e :
+    (if reg_is_jwe (ta_reg a) then jwe_decode tok a else jws_decode tok a) = Err e ->
+    jdec tok a d = Err e.
+  Proof.
+    intro H. unfold jwt_decode. apply decode_transport_error. unfold select_decode.
+    destruct (reg_is_jwe (ta_reg a)); exact H.
+  Qed.
+
+  Lemma api_invalid_payload tok a d h p :
+    (if reg_is_jwe (ta_reg a) then jwe_decode tok a else jws_decode tok a) = Ok (h, p) ->
+    (json_loads d p = Err EValue \/ json_loads d p = Err EType \/ json_loads d p = Err ERuntime \/
+     exists v, json_loads d p = Ok v /\ is_dict v = false) ->
+    jdec tok a d = Err (EJose InvalidPayloadError).
+  Proof.
+    intros H J. unfold jwt_decode. apply (decode_invalid_payload _ _ tok h p); [|exact J].
+    unfold select_decode. destruct (reg_is_jwe (ta_reg a)); exact H.
+  Qed.
+
+  (* round trip for one choice of optional arguments: the contracts are those of the
+     selected transport with these arguments and of the encoder / decoder pair in use *)
+  Lemma api_rt h c a e d tok dd :
+    (forall c' d' b, claims_pv c' = Some d' -> json_ok (PDict d') = true ->
+       json_dumps e c' = Ok b -> json_loads d b = Ok (PDict d')) ->
+    (forall w p t w', select_encode jws_encode jwe_encode a w p = (Ok t, w') ->
+       select_decode jws_decode jwe_decode a t = Ok (w', p) /\
+       exists extra, w' = w ++ extra /\ forall k, dmem w k = true -> dmem extra k = false) ->
+    keys_unique (dkeys h) = true -> claims_ok c = true ->
+    eo_result (jenc h c a e) = Ok tok ->
+    claims_pv (eo_claims (jenc h c a e)) = Some dd ->
+    exists extra,
+      jdec tok a d = Ok (spec_header h ++ extra, PDict dd) /\
+      (forall k, dmem (spec_header h) k = true -> dmem extra k = false).
+  Proof.
+    intros J T. unfold jwt_encode, jwt_decode.
+    apply (encode_g_decode_rt (json_dumps e) (json_loads d) _ _ J T).
+  Qed.
+End ApiProofs.
 
 (* ---------- non-vacuity: a concrete transport + JSON codec meeting both
    contracts on which encode succeeds ---------- *)
@@ -237,3 +418,12 @@ Lemma toy_all :
   eo_result (encode toy_dumps toy_tenc [(asc "alg", PStr (asc "none"))] []) = Ok toy_token /\
   decode toy_loads toy_tdec toy_token = Ok (toy_hdr, PDict []).
 Proof. exact (conj toy_json_rt (conj toy_transport_rt toy_encode_ok)). Qed.
+
+Lemma hostile_decoder_instance :
+  jwt_decode (fun _ _ => Ok (PList [PStr (asc "sub"); PStr (asc "admin")]))
+             (fun t _ => Ok (toy_hdr, toy_payload)) (fun _ _ => Err EValue)
+             toy_token (mkta 1 None None) (Some 5%N) = Err (EJose InvalidPayloadError) /\
+  jwt_decode (fun _ _ => Ok (PDict [(asc "sub", PStr (asc "a"))]))
+             (fun _ _ => Err EValue) (fun t _ => Ok (toy_hdr, toy_payload))
+             toy_token (mkta 1 None (Some (true, 2%N))) None = Ok (toy_hdr, PDict [(asc "sub", PStr (asc "a"))]).
+Proof. vm_compute. split; reflexivity. Qed.
